@@ -1,6 +1,179 @@
 (* Props/C18.v — How an argument is spelled does not change what it means.
-   Only statements, each closed by [exact] and followed by Print Assumptions. *)
-From PV Require Import Base.Prelude Base.Decimal Wire.SeqSet Wire.SeqSetProofs.
+   Only statements, each closed by [exact] and followed by Print Assumptions.
+   Models: Wire/Strings.v, CmdLine.v, ModUtf7.v, SeqSet.v, Flag.v, DateTime.v
+   (tied to /repo by harness/props/C18*.py on every run). *)
+From PV Require Import Base.Prelude Base.Decimal Wire.Lex Wire.SeqSet Wire.SeqSetProofs
+  Wire.Strings Wire.StringsProofs Wire.ModUtf7 Wire.ModUtf7Proofs Wire.CmdLine
+  Wire.CmdLineProofs Wire.Flag Wire.FlagProofs Wire.DateTime Wire.DateTimeProofs.
+
+(* ===================== 1. one value, four spellings ======================= *)
+
+(* AString.parse: for every byte string v and every spelling the grammar
+   allows for it (atom: v non-empty, astring characters only; quoted: no CR/LF;
+   {n}: n within the literal limit, continuations allowed; {n+}: n within the
+   limit), after any number k of extra spaces, the parser returns the value v,
+   leaves exactly what follows the argument ([rest]; for a synchronizing literal
+   it arrives in the continuation buffer) and uses up exactly its own
+   continuation. *)
+Theorem C18_astring_spelling : forall p sp v k rest cs,
+  spelling_ok p sp v = true ->
+  (sp = SpAtom -> head_sat astring_char rest = false) ->
+  parse_astring p (spell_conts sp v rest cs) (repeat SP k ++ spell_buf sp v rest)
+  = POk (v, spell_raw sp v) rest cs.
+Proof. exact astring_spelling. Qed.
+Print Assumptions C18_astring_spelling.
+
+(* the same for String.parse (quoted, {n}, {n+}) *)
+Theorem C18_string_spelling : forall p sp v k rest cs,
+  sp <> SpAtom -> spelling_ok p sp v = true ->
+  parse_string p (spell_conts sp v rest cs) (repeat SP k ++ spell_buf sp v rest)
+  = POk (v, spell_raw sp v) rest cs.
+Proof. exact string_spelling. Qed.
+Print Assumptions C18_string_spelling.
+
+(* a synchronizing literal whose continuation has not arrived interrupts the
+   parse with a request for exactly its announced size *)
+Theorem C18_sync_literal_requests_continuation : forall p v k,
+  spelling_ok p SpLit v = true ->
+  parse_astring p [] (repeat SP k ++ spell_line SpLit v) = PNeed (blen v).
+Proof. exact astring_lit_needs_cont. Qed.
+Print Assumptions C18_sync_literal_requests_continuation.
+
+(* The whole path of a command (IMAPConnection.readline with LITERAL+ gluing,
+   read_continuation, the re-parse loop, Commands.parse), for the commands
+   whose arguments are astrings / mailboxes: whatever the spelling of each
+   argument, the letter case of the command word [w], the number of spaces
+   before the word (kw), before each argument and before the end of the line
+   (ke), and the line ending (CRLF / LF), the server consumes exactly the bytes
+   of the command ([next], the following pipelined bytes, stays unread), sends
+   one continuation request per synchronizing literal, and delivers the command
+   with the upper-cased word and the argument VALUES. *)
+Theorem C18_command_spelling : forall table p tag kw w kinds args ke crlf next vals,
+  tag <> [] -> forallb tag_char tag = true ->
+  (1 <= kw)%nat -> w <> [] -> forallb atom_char w = true ->
+  lookup (upper_bytes w) table = Some kinds ->
+  Forall (arg_ok p) args -> interp_all kinds (map sa_val args) = Some vals ->
+  read_command table p (cmd_wire tag kw w args ke crlf ++ next)
+  = Ok (Cmd tag (upper_bytes w) vals, next, count_sync args).
+Proof. exact command_spelling. Qed.
+Print Assumptions C18_command_spelling.
+
+(* ... hence two wire forms with the same tag, the same word up to letter
+   case and the same argument values are read as the same command *)
+Theorem C18_command_spelling_independent :
+  forall table p tag kinds vals kw1 w1 args1 ke1 crlf1 kw2 w2 args2 ke2 crlf2 next1 next2,
+  tag <> [] -> forallb tag_char tag = true ->
+  (1 <= kw1)%nat -> w1 <> [] -> forallb atom_char w1 = true ->
+  (1 <= kw2)%nat -> w2 <> [] -> forallb atom_char w2 = true ->
+  upper_bytes w1 = upper_bytes w2 ->
+  lookup (upper_bytes w1) table = Some kinds ->
+  Forall (arg_ok p) args1 -> Forall (arg_ok p) args2 ->
+  map sa_val args1 = map sa_val args2 ->
+  interp_all kinds (map sa_val args1) = Some vals ->
+  exists c, read_command table p (cmd_wire tag kw1 w1 args1 ke1 crlf1 ++ next1)
+            = Ok (c, next1, count_sync args1) /\
+            read_command table p (cmd_wire tag kw2 w2 args2 ke2 crlf2 ++ next2)
+            = Ok (c, next2, count_sync args2).
+Proof. exact command_spelling_independent. Qed.
+Print Assumptions C18_command_spelling_independent.
+
+(* ===================== 2. strings: print / parse ========================== *)
+
+(* QuotedString: escaping of dquote and backslash; any value without CR/LF *)
+Theorem C18_quoted_roundtrip : forall v k rest, no_crlf v = true ->
+  parse_quoted (repeat SP k ++ print_quoted v ++ rest) = Some (v, print_quoted v, rest).
+Proof. exact quoted_roundtrip. Qed.
+Print Assumptions C18_quoted_roundtrip.
+
+(* a PARSED quoted string: its cached raw form is exactly the bytes consumed
+   (after the leading spaces), and serialising it in any other context parses
+   to the same value, consuming exactly the serialised bytes *)
+Theorem C18_parsed_quoted_reserialise : forall b v raw rest,
+  parse_quoted b = Some (v, raw, rest) ->
+  skip_spaces b = raw ++ rest /\ no_crlf v = true /\
+  (forall k rest', parse_quoted (repeat SP k ++ raw ++ rest') = Some (v, raw, rest')).
+Proof. exact parse_quoted_spec. Qed.
+Print Assumptions C18_parsed_quoted_reserialise.
+
+(* LiteralString: prefix {n} CRLF then the payload as continuation, or {n+}
+   with the payload in place; binary mark kept *)
+Theorem C18_literal_roundtrip : forall p cs k bin v rest,
+  too_big p (blen v) = false -> sp_allow_cont p = true ->
+  parse_literal p ((v ++ rest) :: cs) (repeat SP k ++ lit_prefix bin (blen v)) = POk (v, bin) rest cs.
+Proof. exact literal_sync_parse. Qed.
+Print Assumptions C18_literal_roundtrip.
+
+Theorem C18_literal_plus_roundtrip : forall p cs k v rest, too_big p (blen v) = false ->
+  parse_literal p cs (repeat SP k ++ lit_plus_prefix (blen v) ++ v ++ rest) = POk (v, false) rest cs.
+Proof. exact literal_plus_parse. Qed.
+Print Assumptions C18_literal_plus_roundtrip.
+
+(* String.build (quoted when short and free of CR, LF, NUL; literal otherwise) *)
+Theorem C18_string_build_roundtrip : forall p binary v k rest cs,
+  (build_is_quoted binary v = false -> too_big p (blen v) = false /\ sp_allow_cont p = true) ->
+  if build_is_quoted binary v
+  then parse_string p cs (repeat SP k ++ string_build binary v ++ rest)
+       = POk (v, string_build binary v) rest cs
+  else parse_string p ((v ++ rest) :: cs) (repeat SP k ++ lit_prefix binary (blen v))
+       = POk (v, string_build binary v) rest cs.
+Proof. exact string_build_roundtrip. Qed.
+Print Assumptions C18_string_build_roundtrip.
+
+(* any parsed String object serialised again (cached raw form of a quoted
+   string, prefix + payload of a literal) parses to the same value *)
+Theorem C18_parsed_string_reserialise : forall p cs b v raw rest cs',
+  sp_allow_cont p = true ->
+  parse_string p cs b = POk (v, raw) rest cs' ->
+  (forall k rest' cs2, parse_string p cs2 (repeat SP k ++ raw ++ rest') = POk (v, raw) rest' cs2)
+  \/ (exists bin, raw = lit_prefix bin (blen v) ++ v /\
+      forall k rest' cs2, parse_string p ((v ++ rest') :: cs2) (repeat SP k ++ lit_prefix bin (blen v))
+                          = POk (v, raw) rest' cs2).
+Proof. exact parsed_string_reserialise. Qed.
+Print Assumptions C18_parsed_string_reserialise.
+
+(* bytes(AString(v)) : atom when possible, quoted otherwise *)
+Theorem C18_astring_print_roundtrip : forall p v k rest cs,
+  no_crlf v = true -> (is_astring_atom v = true -> head_sat astring_char rest = false) ->
+  parse_astring p cs (repeat SP k ++ print_astring v ++ rest) = POk (v, print_astring v) rest cs.
+Proof. exact astring_print_roundtrip. Qed.
+Print Assumptions C18_astring_print_roundtrip.
+
+(* ===================== 3. mailbox names =================================== *)
+
+(* decode (encode s) = s for every string of Unicode scalar values; base64 of
+   the UTF-16-BE form (surrogate pairs for astral code points) read back by
+   the utf-7 codec's bit buffer *)
+Theorem C18_modutf7_roundtrip : forall s, Forall is_scalar s ->
+  modutf7_decode (modutf7_encode s) = Ok s.
+Proof. exact modutf7_roundtrip. Qed.
+Print Assumptions C18_modutf7_roundtrip.
+
+Theorem C18_modified_base64_roundtrip : forall run, run <> [] -> Forall is_scalar run ->
+  mb64_decode (mb64 run) = Ok run.
+Proof. exact mb64_roundtrip. Qed.
+Print Assumptions C18_modified_base64_roundtrip.
+
+(* the encoded name is printable ASCII (so its astring form is well-formed) *)
+Theorem C18_modutf7_encode_printable : forall s, Forall is_scalar s ->
+  forallb printable (modutf7_encode s) = true.
+Proof. exact modutf7_encode_printable. Qed.
+Print Assumptions C18_modutf7_encode_printable.
+
+(* what LIST and STATUS print for a name (bytes(Mailbox(name))) parses, as a
+   mailbox argument, to that name — up to Mailbox's own INBOX normalisation *)
+Theorem C18_mailbox_report_roundtrip : forall p name k rest cs,
+  Forall is_scalar name -> head_sat astring_char rest = false ->
+  parse_mailbox p cs (repeat SP k ++ print_mailbox name ++ rest) = POk (mailbox_norm name) rest cs.
+Proof. exact mailbox_report_roundtrip. Qed.
+Print Assumptions C18_mailbox_report_roundtrip.
+
+Theorem C18_mailbox_report_roundtrip_plain : forall p name k rest cs,
+  Forall is_scalar name -> is_inbox_str name = false -> head_sat astring_char rest = false ->
+  parse_mailbox p cs (repeat SP k ++ print_mailbox name ++ rest) = POk name rest cs.
+Proof. exact mailbox_report_roundtrip_plain. Qed.
+Print Assumptions C18_mailbox_report_roundtrip_plain.
+
+(* ===================== 4. sequence sets, numbers ========================== *)
 
 (* serialising any parsed sequence set and parsing it again yields the same
    value while consuming exactly its own bytes (any following bytes [rest]
@@ -16,3 +189,46 @@ Theorem C18_number_roundtrip : forall n rest,
   head_is_digit rest = false -> parse_number (dec_of_N n ++ rest) = Some (n, rest).
 Proof. exact parse_number_print. Qed.
 Print Assumptions C18_number_roundtrip.
+
+(* ===================== 5. flags =========================================== *)
+
+(* every flag the parser delivers is well-formed ... *)
+Theorem C18_parse_flag_wf : forall b v rest, parse_flag b = Some (v, rest) -> wf_flag v = true.
+Proof. exact parse_flag_wf. Qed.
+Print Assumptions C18_parse_flag_wf.
+
+(* ... and every well-formed flag (keyword, or backslash + capitalised atom)
+   printed and parsed again gives the same flag, consuming exactly its bytes *)
+Theorem C18_flag_roundtrip : forall v k rest,
+  wf_flag v = true -> flag_terminator rest = true ->
+  parse_flag (repeat SP k ++ print_flag v ++ rest) = Some (v, rest).
+Proof. exact flag_roundtrip. Qed.
+Print Assumptions C18_flag_roundtrip.
+
+(* system flags are case-normalised: spellings differing in letter case only
+   parse to the same flag *)
+Theorem C18_flag_case_insensitive : forall a a' k k' rest,
+  a <> [] -> forallb atom_char a = true -> forallb atom_char a' = true ->
+  lower_bytes a = lower_bytes a' -> flag_terminator rest = true ->
+  parse_flag (repeat SP k ++ BSLASH :: a ++ rest) = Some (BSLASH :: capitalize a, rest) /\
+  parse_flag (repeat SP k' ++ BSLASH :: a' ++ rest) = Some (BSLASH :: capitalize a, rest).
+Proof. exact flag_case_insensitive. Qed.
+Print Assumptions C18_flag_case_insensitive.
+
+(* ===================== 6. date-times ====================================== *)
+
+(* every date-time the parser delivers passes the calendar and range checks
+   (year 1..9999, month table, day within the month incl. the leap-year rule,
+   time of day, zone strictly within 24 h) ... *)
+Theorem C18_parse_datetime_valid : forall b d raw rest,
+  parse_datetime b = Some (d, raw, rest) -> valid_dt d = true.
+Proof. exact parse_datetime_valid. Qed.
+Print Assumptions C18_parse_datetime_valid.
+
+(* ... and every such value whose zone is a whole number of minutes, printed
+   (two-digit day, month name, four-digit year, +HHMM zone) and parsed again,
+   gives the same value, consuming exactly the printed bytes, whatever follows *)
+Theorem C18_datetime_roundtrip : forall d k rest, wf_dt d = true ->
+  parse_datetime (repeat SP k ++ print_datetime d ++ rest) = Some (d, print_datetime d, rest).
+Proof. exact datetime_roundtrip. Qed.
+Print Assumptions C18_datetime_roundtrip.
